@@ -103,7 +103,10 @@ def reset_execution():
     X.ORTHO.clear()
     del X.FACTORISATIONS[:]
     X.CONST_INPUTS.clear()
+    X.NONZERO_EXPRS.clear()
     NONNEG.clear()
+    for _k in [k for k in X.NONNEG_INPUTS if "#" in k]:
+        X.NONNEG_INPUTS.discard(_k)
     global _opq
     _opq = itertools.count()
 
@@ -147,11 +150,13 @@ def flat_sizes(t):
     return [VSIZE[v] for v in lift(t).digits()]
 
 
-def opaque_tensor(prefix, dims, dtype="float64", ortho_axis=None):
+def opaque_tensor(prefix, dims, dtype="float64", ortho_axis=None, nonneg=False):
     k = _opq_t.get(prefix, 0)
     _opq_t[prefix] = k + 1
     name = f"{prefix}#{k}"
     t = sym_input(name, [d for d in dims], dtype)
+    if nonneg:
+        X.NONNEG_INPUTS.add(name)  # `ensures result >= 0` of the stubbed callee (proved on its own body)
     if ortho_axis is not None:
         X.ORTHO[name] = ortho_axis  # assumed contract of the dependency (A3): orthonormal along this axis
     return t
@@ -959,6 +964,10 @@ def where(cond, x, y):
         # side condition of the obligation: the tested quantity has no zero entry, so where(q == 0, x, y) = y
         SIDE["used"].append(("nonzero", repr(cond.lhs.body)[:120]))
         y = lift(y)
+        for t_ in y.body.terms:
+            for a_, e_ in t_.facs:
+                if a_[0] == "P":
+                    X.NONZERO_EXPRS.add(X.shape_key(a_[1]))
         if y.ndim == cond.lhs.ndim:
             return y
         return binop(y, ones(cond.lhs.shape, y.dtype), "mul")
